@@ -163,6 +163,10 @@ func (c *Conn) Idle() bool {
 	return !c.k.goroutineBusy("conn:" + c.name)
 }
 
+// Idle2 reports that no lal goroutine named after this connection still waits for or holds a mutex
+// (its teardown callbacks have completed).
+func (c *Conn) Idle2() bool { return !c.k.goroutineBusy("conn:" + c.name) }
+
 // WriterBlocked reports that a lal goroutine is blocked in Write on this connection.
 func (c *Conn) WriterBlocked() bool {
 	c.mu.Lock()
